@@ -123,7 +123,7 @@ func c09IDOfURI(u protocol.DocumentURI) int {
 }
 
 func gLoc(id int, r protocol.Range) string {
-	return fmt.Sprintf("(mkLoc %d (mkPR %d %d %d %d))", id, r.Start.Line, r.Start.Character, r.End.Line, r.End.Character)
+	return fmt.Sprintf("(mkLoc %d %s)", id, gPR(r))
 }
 
 // applyEdits applies LSP text edits (UTF-16 positions) to a text; false if an edit is out of range or edits overlap
